@@ -285,7 +285,7 @@ func runProgram(p program, seed int64) {
 				swapSource(osRandReader(), "os")
 			} else {
 				progSrc = &scriptReader{fill: newRng(seed, "prog/bytes"), after: "data"}
-				swapSource(progSrc, st.Kind)
+				swapSource(wrapSource(progSrc, st.Kind), st.Kind)
 			}
 		case "new":
 			if progSrc != nil {
